@@ -37,7 +37,7 @@ def setup(ctx):
     from smartquery import SqParser
     ctx.P = SqParser()
     from smartquery import functions as _functions
-    ctx.count('table_entries_unknown_to_the_pinned_tree_added_to_the_identifier_pool', len(gram.use_table_names(sorted(_functions.FUNCTIONS))))
+    ctx.count('table_entries_unknown_to_the_pinned_tree_added_to_the_identifier_pool', len(gram.use_table_names(gram.table_names())))
     ctx.M7 = monitors.TokenMonitor(ctx.P)
     # a caching parser: the same erroneous text is resubmitted with other leading blank lines; its cache normalises keys (strips surrounding
     # blank space), so the resubmitted text is the SAME key for the host's cache - and still a different text for the line numbers in the message
